@@ -175,6 +175,21 @@ func Contents(names []string) []Content {
 	add("allOf", "inline-complex", func(b *BundleSpec, s int) J {
 		return J{"allOf": []any{simpleObj("a1"), J{"type": "object", "properties": J{"extra": J{"type": "boolean"}}}}}
 	})
+	// deeper nesting (naming of inline schemas at depth, C03)
+	add("nestedObjects3", "inline-deep", func(b *BundleSpec, s int) J {
+		return J{"type": "object", "properties": J{"l1": J{"type": "object", "properties": J{"l2": J{"type": "object", "properties": J{"l3": simpleObj("deep")}}}}}}
+	})
+	add("arrayOfTupleOfObject", "inline-deep", func(b *BundleSpec, s int) J {
+		return J{"type": "array", "items": J{"type": "array", "items": []any{simpleObj("tup0"), J{"type": "array", "items": simpleObj("tup1item")}}}}
+	})
+	add("mapOfArrayOfAllOf", "inline-deep", func(b *BundleSpec, s int) J {
+		return J{"type": "object", "additionalProperties": J{"type": "array", "items": J{"allOf": []any{simpleObj("m1"), J{"allOf": []any{simpleObj("m2")}}}}}}
+	})
+	add("objectWithRefsAndInline", "inline-deep", func(b *BundleSpec, s int) J {
+		b.Add(RootFile, P(simpleObj("mixedLocal"), "definitions", "mixedLocal"))
+		b.Add(AuxA, P(simpleObj("mixedAux"), "definitions", "mixedAux"))
+		return J{"type": "object", "properties": J{"loc": LocalRef("mixedLocal"), "aux": J{"$ref": AuxA + "#/definitions/mixedAux"}, "inl": J{"type": "object", "properties": J{"again": J{"$ref": AuxA + "#/definitions/mixedAux"}}}}}
+	})
 	for _, nm := range names {
 		nm := nm
 		add("refLocal["+nm+"]", "ref-local", func(b *BundleSpec, s int) J {
